@@ -145,10 +145,40 @@ package metric
 //@   modifies builder.kvsHash
 //@   ensures builder.kvsHash == kvsHash
 //@ end
-//@ func BrokerRowProtoConverter.validateMetric
+//@ # name sanitising and the zero-copy string/bytes helpers of lindb/common: pure functions of their arguments
+//@ extern func github.com/lindb/common/series.SanitizeMetricName
+//@   modifies nothing
+//@ end
+//@ extern func github.com/lindb/common/series.SanitizeNamespace
+//@   modifies nothing
+//@ end
+//@ extern func github.com/lindb/common/series.ShouldSanitizeFieldName
+//@   modifies nothing
+//@ end
+//@ extern func github.com/lindb/common/series.SanitizeFieldName
+//@   modifies nothing
+//@ end
+//@ func github.com/lindb/lindb/pkg/strutil.String2ByteSlice
 //@   assume
-//@   modifies m.Tags, any(*protoMetricsV1.KeyValue).Key, any(*protoMetricsV1.KeyValue).Value, rc.enrichedTags
-//@   ensures result == nil ==> (forall(i, 0, len(m.Tags), m.Tags[i] != nil) && forall(i, 0, len(m.SimpleFields), m.SimpleFields[i] != nil))
+//@   modifies nothing
+//@ end
+//@ extern func math.IsNaN
+//@   modifies nothing
+//@ end
+//@ extern func math.IsInf
+//@   modifies nothing
+//@ end
+//@ globalinv ErrBadMetricPBFormat != nil && ErrMetricEmptyFieldName != nil && ErrMetricEmptyTagKeyValue != nil && ErrMetricInfField != nil && ErrMetricNanField != nil && ErrMetricPBEmptyField != nil && ErrMetricPBEmptyMetricName != nil && ErrMetricPBNilMetric != nil && constants.ErrFieldNameTooLong != nil && constants.ErrMetricNameTooLong != nil && constants.ErrTagKeyTooLong != nil && constants.ErrTagValueTooLong != nil && constants.ErrTooManyFields != nil && constants.ErrTooManyTagKeys != nil
+//@ func BrokerRowProtoConverter.validateMetric
+//@   prop C16
+//@   arith math
+//@   requires rc.limits != nil
+//@   modifies m.Name, m.Timestamp, m.Tags, m.Namespace, any(*protoMetricsV1.SimpleField).Name
+//@   ensures[an_accepted_metric_has_no_missing_tag_or_field_entry] result == nil ==> (m != nil && forall(i, 0, len(m.Tags), m.Tags[i] != nil) && forall(i, 0, len(m.SimpleFields), m.SimpleFields[i] != nil))
+//@   loop 1 invariant i >= 0 && m != nil
+//@   loop 2 invariant m != nil && rangeindex >= -1 && forall(i, 0, rangeindex + 1, m.Tags[i] != nil)
+//@   loop 3 invariant m != nil && rangeindex >= -1 && forall(i, 0, len(m.Tags), m.Tags[i] != nil) && forall(i, 0, rangeindex + 1, m.SimpleFields[i] != nil)
+//@   loop 4 invariant m != nil && m.CompoundField != nil && idx >= 0 && len(m.CompoundField.Values) == len(m.CompoundField.ExplicitBounds) && forall(i, 0, len(m.Tags), m.Tags[i] != nil) && forall(i, 0, len(m.SimpleFields), m.SimpleFields[i] != nil)
 //@ end
 //@ func BrokerRowProtoConverter.hashOfName
 //@   assume
@@ -157,7 +187,7 @@ package metric
 //@ func BrokerRowProtoConverter.MarshalProtoMetricV1
 //@   prop C16
 //@   arith math
-//@   requires rc.flatBuilder != nil && m != nil
+//@   requires rc.flatBuilder != nil && m != nil && rc.limits != nil
 //@   modifies *
 //@   ensures[the_series_hash_covers_exactly_the_stored_tags] result1 == nil ==> rc.flatBuilder.kvsHash == xxKVs(contents(m.Tags), len(m.Tags))
 //@   ensures[stored_tags_are_sorted_without_a_repeated_key] result1 == nil ==> forall(i, 1, len(m.Tags), m.Tags[i - 1] != nil && m.Tags[i] != nil && tag.strLess(m.Tags[i - 1].Key, m.Tags[i].Key))
